@@ -417,6 +417,10 @@ def cases(shard, nshards, seed, tier):
     for j, fn in enumerate(STRUCTS):
         if (tier != "quick" or j % 2 == 0) and mine():
             yield {"family": "adapter-two-listings", "file": fn, "ops": [], "gaps": j % 4 == 0}
+    # ... for a structure whose chain identifier is blank (PDB files with an empty column 22): unit ids read 1ATO|1| |G|1
+    for fn in ("tests/1ATO.pdb", "tests/1A1T_1_B.cif"):
+        if mine():
+            yield {"family": "adapter-two-listings", "file": fn, "ops": [], "gaps": False, "blank_chain": True}
     n = 600 if tier == "quick" else 15000
     for i in range(n):
         if mine():
@@ -564,6 +568,10 @@ def _adapter_two_listings(case, rec):
 
     seed = os.environ.get("VERIF_SEED", "0")
     s = gen3d.load(case["file"])
+    if case.get("blank_chain"):
+        from rnapolis.common import ResidueAuth
+
+        s = gen3d.rebuild(s, relabel=lambda ri, r: (None, ResidueAuth(" ", r.auth.number, r.auth.icode, r.auth.name)))
     try:
         bi = annotator.extract_base_interactions(s)
     except Exception as e:
